@@ -131,6 +131,9 @@ __CPROVER_ensures(bn->count < m->count ==> __CPROVER_return_value == EOVERFLOW)
 __CPROVER_ensures(__CPROVER_return_value == 0 ==> VF_BN_WF(*bn))
 __CPROVER_ensures((__CPROVER_return_value == 0 && exp->digits == 1 && exp->num[0] == 0) ==> VF_BN_VAL(*bn) == 1)
 __CPROVER_ensures((__CPROVER_return_value == 0 && VF_BN_VAL(*exp) == 1) ==> VF_BN_VAL(*bn) == VF_BN_OLDVAL(bn))
+/* a reduced base stays reduced (m >= 2: bn^0 is returned as 1 also for m == 1) */
+__CPROVER_ensures((__CPROVER_return_value == 0 && VF_BN_OLDVAL(bn) < VF_BN_VAL(*m) && VF_BN_VAL(*m) >= 2) ==>
+    VF_BN_VAL(*bn) < VF_BN_VAL(*m))
 ;
 /* bn = bn / d mod m = bn * d^-1 mod m (straight-line over bn_mod_inv and bn_mod_mult) */
 static inline int
